@@ -4,9 +4,12 @@
 //! * `sched`  — cooperative controller: real threads block at verification points until granted,
 //!              so that a TLC behaviour (a sequence of (actor, action)) can be replayed
 //! * `stream` — recording / scripted / gateable `EntryIoStream`
+//! * `emf`    — scripted EMF entries, concretisation tables, formatter construction, output projection
 //! * `json`   — strict RFC 8259 parser that reports duplicate members (judge for EMF output)
 //! * `util`   — seeded RNG helpers, argument parsing
 
+pub mod emfkinds;
+pub mod emf;
 pub mod json;
 pub mod sched;
 pub mod stream;
